@@ -53,7 +53,7 @@ def build(variant):
 # --------------------------------------------------------------------------
 # harness
 
-def run_kvdrive(script_text, wd, name, variant="rel", env=None, timeout=120, taskset=None):
+def run_kvdrive(script_text, wd, name, variant="rel", env=None, timeout=120, taskset=None, stdin_bytes=None):
     """returns (trace_path, returncode, stderr_tail). returncode 124 = timeout"""
     bdir = build(variant)
     sp = os.path.join(wd, name + ".kv")
@@ -71,8 +71,10 @@ def run_kvdrive(script_text, wd, name, variant="rel", env=None, timeout=120, tas
     if taskset:
         cmd = ["taskset", "-c", taskset] + cmd
     try:
-        p = subprocess.run(cmd, stdin=subprocess.DEVNULL, stdout=subprocess.PIPE, stderr=subprocess.PIPE,
-                           timeout=timeout, env=e)
+        if stdin_bytes is None:
+            p = subprocess.run(cmd, stdin=subprocess.DEVNULL, stdout=subprocess.PIPE, stderr=subprocess.PIPE, timeout=timeout, env=e)
+        else:
+            p = subprocess.run(cmd, input=stdin_bytes, stdout=subprocess.PIPE, stderr=subprocess.PIPE, timeout=timeout, env=e)
         return tp, p.returncode, p.stderr.decode("utf-8", "replace")[-6000:]
     except subprocess.TimeoutExpired:
         return tp, 124, "timeout after %ss" % timeout
@@ -203,14 +205,15 @@ def run_tlc(module, cfg, wd, trace=None, workers=1, cont=False, timeout=900, env
             cmd += ["-depth", str(depth)]
     cmd.append(module + ".tla")
     t0 = time.time()
-    try:
-        p = subprocess.run(cmd, cwd=SPEC, stdin=subprocess.DEVNULL, stdout=subprocess.PIPE, stderr=subprocess.STDOUT,
-                           timeout=timeout, env=e)
-        out = p.stdout.decode("utf-8", "replace")
-        rc = p.returncode
-    except subprocess.TimeoutExpired as ex:
-        out = (ex.stdout or b"").decode("utf-8", "replace")
-        rc = 124
+    logp = os.path.join(meta, "tlc.out")
+    with open(logp, "wb") as lf:
+        try:
+            p = subprocess.run(cmd, cwd=SPEC, stdin=subprocess.DEVNULL, stdout=lf, stderr=subprocess.STDOUT, timeout=timeout, env=e)
+            rc = p.returncode
+        except subprocess.TimeoutExpired:
+            rc = 124
+    with open(logp, "rb") as lf:
+        out = lf.read(64 << 20).decode("utf-8", "replace")   # never swallow more than 64 MB of TLC output
     r = TlcResult()
     r.wall = time.time() - t0
     r.rc = rc
